@@ -90,6 +90,7 @@ type ExpressionFilter struct {
 	LeftInput      *FilterInput          // left input to filterOperator
 	FilterOperator sutils.FilterOperator // how to logField in logline (i.e logField=filterString, logField >= filterValue)
 	RightInput     *FilterInput          // right input to filterOperator
+	NegateMatch    bool                  // select the records the expression does NOT match (negated all-column comparison with a number)
 }
 
 // Top level filter criteria condition that define either a MatchFilter or ExpressionFilter. Only one will be defined, never both
